@@ -578,12 +578,12 @@ Proof.
 Qed.
 
 (* ---------- dns.rdata.from_text on the printed record ---------- *)
-Theorem record_roundtrip sty c fs vs text vs' rest fw tw :
+Theorem record_roundtrip sty c fs chk vs text vs' rest fw tw :
   schema_wf fs -> Forall2 val_ok fs vs -> style_ok sty -> line_end rest ->
-  record_to_text sty fs vs = Ok text -> expects sty c fs vs = Ok vs' ->
-  record_from_text_gen fw tw c fs (text ++ rest) = Ok vs'.
+  record_to_text sty fs vs = Ok text -> expects sty c fs vs = Ok vs' -> chk vs' = Ok tt ->
+  record_from_text_gen fw tw c fs chk (text ++ rest) = Ok vs'.
 Proof.
-  intros Hwf Hvs Hsty Hrest Hp He.
+  intros Hwf Hvs Hsty Hrest Hp He Hchk.
   destruct (fields_ok sty c rest Hsty Hrest fs vs text vs' false [] Hwf Hvs Hp He eq_refl)
     as (t1 & s1 & G1 & G2 & (W1 & W2 & W3) & G4 & G5).
   cbn [app] in G1. unfold record_from_text_gen, rdata_from_text, init.
@@ -592,5 +592,6 @@ Proof.
   destruct (get0_unget _ _ _ G1 G2 W1 W2) as (stu & U1 & U2). rewrite U1. cbn [bind]. rewrite W3.
   destruct (G5 stu U2) as (raws & se & P1 & Pc & (te & st' & P2)).
   { unfold unget in U1. rewrite G2 in U1. inversion U1. cbn [inp]. lia. }
-  unfold class_from_text. rewrite P1. cbn [bind fst snd]. rewrite Pc. cbn [bind fst snd]. rewrite P2. reflexivity.
+  unfold class_from_text. rewrite P1. cbn [bind fst snd]. rewrite Pc. cbn [bind fst snd]. rewrite Hchk.
+  cbn [bind fst snd]. rewrite P2. reflexivity.
 Qed.
